@@ -36,7 +36,6 @@ import (
 	"github.com/AliceO2Group/Control/common/event"
 	"github.com/AliceO2Group/Control/common/event/topic"
 	pb "github.com/AliceO2Group/Control/common/protos"
-	"github.com/AliceO2Group/Control/common/verifhook"
 	"github.com/AliceO2Group/Control/configuration/template"
 	"github.com/AliceO2Group/Control/core/repos"
 	"github.com/AliceO2Group/Control/core/task"
